@@ -84,6 +84,22 @@ def random_doc(rng, maxnodes):
     return evs
 
 
+def relabel(evs):
+    """The same document with look-alike elements: every tag is <b>, every string 's', every comment 'c'
+    (siblings then compare equal under Tag.__eq__ / str equality; identity must still decide)."""
+    out = []
+    for e in evs:
+        if e[0] == "s":
+            out.append(("s", "b", e[2], e[3]))
+        elif e[0] == "e":
+            out.append(("e", "b", e[2]))
+        elif e[0] == "d":
+            out.append(("d", e[1][0]))
+        else:
+            out.append(e)
+    return out
+
+
 class OpGen:
     """Enumerates / samples admissible editing calls on the current reference forest."""
 
